@@ -251,7 +251,7 @@ fn stage2(run: &Run, quick: bool) {
     let only: Option<Vec<String>> = std::env::var("C02_ONLY").ok().map(|s| s.split(',').map(|x| x.to_string()).collect());
     let mut st = Stage2::default();
     // order: cheap, finding-rich phases first
-    let order = ["corpus", "cffprog", "cff2prog", "glyfgraph", "capfam", "colrgrad", "colridx", "c20deep", "iftf2", "truncations", "ift", "deviations", "ttprog", "klippa"];
+    let order = ["corpus", "cffprog", "cff2prog", "glyfgraph", "capfam", "colrgrad", "colridx", "metafam", "c20deep", "iftf2", "truncations", "ift", "deviations", "ttprog", "klippa"];
     phases.sort_by_key(|p| order.iter().position(|o| *o == p.label).unwrap_or(99));
     for ph in &phases {
         if let Some(o) = &only {
